@@ -162,6 +162,11 @@ pub struct FuncSpec {
     /// dead-code pass does
     #[serde(default)]
     pub removed: Vec<(usize, usize)>,
+    /// (block, from position, to position): instructions moved inside their block through
+    /// `instructions_mut()` after building, as an instrumentation or scheduling pass does;
+    /// instruction indices are then no longer ascending
+    #[serde(default)]
+    pub moved: Vec<(usize, usize, usize)>,
 }
 
 impl FuncSpec {
@@ -205,6 +210,15 @@ impl FuncSpec {
             if let Ok(block) = cfg.block_mut(b) {
                 if let Some(index) = block.instructions().get(pos).map(|i| i.index()) {
                     let _ = block.remove_instruction(index);
+                }
+            }
+        }
+        for &(b, from, to) in &self.moved {
+            if let Ok(block) = cfg.block_mut(b) {
+                let v = block.instructions_mut();
+                if from < v.len() && to < v.len() && from != to {
+                    let ins = v.remove(from);
+                    v.insert(to, ins);
                 }
             }
         }
